@@ -78,7 +78,7 @@ impl Serialize for Polygon3D {
     where
         S: serde::Serializer,
     {
-        let l = self.get_closed_loop();
+        let l = self.try_get_closed_loop().map_err(serde::ser::Error::custom)?;
         l.serialize(serializer)
     }
 }
@@ -231,7 +231,17 @@ impl Polygon3D {
     /// it has proven to be pretty robust for relatively normal
     /// geometries.
 
+    ///
+    /// # Panics
+    /// Panics if a bridge between the outline and a hole cannot be added (see
+    /// [`Polygon3D::try_get_closed_loop`] for the non-panicking version)
     pub fn get_closed_loop(&self) -> Loop3D {
+        self.try_get_closed_loop().unwrap()
+    }
+
+    /// The same as [`Polygon3D::get_closed_loop`], but a bridge that [`Loop3D::push`]
+    /// refuses is returned as an error instead of a panic
+    pub fn try_get_closed_loop(&self) -> Result<Loop3D, String> {
         //get the number of interior loops
         let n_inner_loops = self.inner.len();
 
@@ -325,7 +335,7 @@ impl Polygon3D {
                 let ext_vertex = ret_loop[i];
 
                 // Add
-                aux.push(ext_vertex).unwrap();
+                aux.push(ext_vertex)?;
 
                 // If we are in the vertex through which we want
                 // to connect the interior loop, then go inside.
@@ -350,11 +360,11 @@ impl Polygon3D {
                         let y = inner_vertex.y;
                         let z = inner_vertex.z;
 
-                        aux.push(Point3D::new(x, y, z)).unwrap();
+                        aux.push(Point3D::new(x, y, z))?;
                     }
 
                     //return to exterior ret_loop
-                    aux.push(ext_vertex).unwrap();
+                    aux.push(ext_vertex)?;
                 }
             }
 
@@ -364,7 +374,7 @@ impl Polygon3D {
             processed_inner_loops.push(inner_loop_id);
         } // end iterating inner loops
           // ret_loop.close().unwrap();
-        ret_loop
+        Ok(ret_loop)
     } // end of get_closed_polygon
 
     /// Checks whether the [`Polygon3D`] contains a certain [`Segment3D`]
